@@ -186,7 +186,7 @@ def r3(ctx, prog):
                 design_a = False
                 bad_where = f.loc(d['i'])
     c = prog.fn1(IMPL + '::commitRespond')
-    sends = [st for st in c.calls() if st.get('fn') == 'send' and q.obj_field_is(c, st, 'Impl::tcp_server_')]
+    sends = send_sites(prog, c)
     if not sends:
         raise AnalysisBroken('commitRespond: tcp_server_.send not found')
     design_b = True
@@ -225,6 +225,20 @@ def r4(ctx, prog):
     ctx.ob('C12.R4', '%s|created' % CTXC, set(made) == {IMPL + '::onTcpReceived'}, 'Context created in: %s' % sorted(set(made)))
     # Respond ownership in commitRespond: every path either deletes `res` or parks it in res_buff
     dels = [st for st in c.stmts if st and st['k'] == 'CXXDeleteExpr' and c.path(st['ch'][0]) == 'res']
+    # ... or hands it to a local closure that deletes its parameter
+    for st in c.stmts:
+        if st and st['k'] == 'DeclStmt':
+            for d in st['decls']:
+                if 'init' not in d:
+                    continue
+                for x in c.walk(d['init']):
+                    if c.stmts[x]['k'] == 'LambdaExpr':
+                        lf = prog.lambda_func(c, c.stmts[x])
+                        if lf is not None and lf.params and any(y and y['k'] == 'CXXDeleteExpr' and lf.path(y['ch'][0]) == lf.params[0]['n'] for y in lf.stmts):
+                            for cc in c.calls():
+                                if cc.get('fn') == 'operator()' and cc.get('obj') is not None and (c.s(c.strip_casts(cc['obj'])) or {}).get('d') == d['d'] and \
+                                        cc.get('args') and c.path(cc['args'][0]) == 'res':
+                                    dels.append(cc)
     parks = [st for st in c.stmts if st and st['k'] in ('BinaryOperator', 'CXXOperatorCallExpr') and st.get('op') == '=' and
              c.path(st['ch'][-1] if st['k'] == 'BinaryOperator' else st['args'][0]) == 'res']
     ok = not c.cfg.exists_path(c.cfg.entry_point(), 'exit', avoid=q.pts(c, dels + parks))
@@ -233,11 +247,35 @@ def r4(ctx, prog):
     ctx.ob('C12.R4', '%s|parked-freed' % d.name, any(st and st['k'] == 'CXXDeleteExpr' for st in d.stmts), 'parked responses are freed with the connection', where=d.loc(d.body))
 
 
+def send_sites(prog, c):
+    """call sites in c at which one response is written: tcp_server_.send(...) itself, or a call of a local closure whose body contains that send"""
+    out = [st for st in c.calls() if st.get('fn') == 'send' and q.obj_field_is(c, st, 'Impl::tcp_server_')]
+    lam_vars = {}
+    for st in c.stmts:
+        if st and st['k'] == 'DeclStmt':
+            for d in st['decls']:
+                if 'init' in d:
+                    for x in c.walk(d['init']):
+                        if c.stmts[x]['k'] == 'LambdaExpr':
+                            lf = prog.lambda_func(c, c.stmts[x])
+                            if lf is not None and any(s2.get('fn') == 'send' and (lf.field_of(s2.get('obj', -1)) or '').endswith('tcp_server_') for s2 in lf.calls()):
+                                lam_vars[d['d']] = lf
+    for st in c.calls():
+        if st.get('fn') == 'operator()' and st.get('obj') is not None:
+            o = c.s(c.strip_casts(st['obj']))
+            if o is not None and o['k'] == 'DeclRefExpr' and o.get('d') in lam_vars:
+                out.append(st)
+    return out
+
+
 def r5(ctx, prog):
     ctx.rule('C12.R5', 'A4: in-order flush: res_index advances once per send; the parked map is searched with the updated index; '
                        'the connection is dropped only when res_index > close_index', floor=4)
     c = prog.fn1(IMPL + '::commitRespond')
-    sends = [st for st in c.calls() if st.get('fn') == 'send' and q.obj_field_is(c, st, 'Impl::tcp_server_')]
+    sends = send_sites(prog, c)
+    if not sends:
+        ctx.ob('C12.R5', '%s|sends' % c.name, False, 'commitRespond never writes a response', where=c.loc(c.body))
+        return
     incs = q.writes(c, 'Connection::res_index')
     for s in sends:
         sp = q.pt(c, s)
@@ -297,6 +335,38 @@ def r10(ctx, prog):
                '%s is updated relative to its previous value at %s but never given a fresh value when a new request starts: it keeps growing over the requests of one connection'
                % (short, f.loc(st['i'])), where=f.loc(st['i']))
     ctx.ob('C12.R10', '%s|relative-updates' % f.name, True, '%d relative member updates in parse() examined' % len(rel))
+    # what a stage has learnt survives its own re-entry: parse() runs a stage again on the next call when the data ended inside it, so a member that the stage fills from
+    # the input (a non-constant assignment) must not be reset by a statement of that same stage
+    stage_of = lambda p_: [(c, b) for c, k, b in f.cfg.controlling_branches(p_) if k == 0 and any(l.endswith('state_') and o == '==' for l, o, r in q.edge_rels(f, c, k))]
+    fields = sorted({(f.field_of(st['ch'][0]) or '') for st in f.stmts if st and st['k'] == 'BinaryOperator' and st.get('op') == '=' and (f.field_of(st['ch'][0]) or '').startswith(PARSER + '::')} - {''})
+    n_f = 0
+    for fq in fields:
+        short = fq.split('::')[-1]
+        if short == 'state_':
+            continue
+        asg = q.assigns(f, short)
+        consts = [a for a, rhs in asg if (f.s(rhs) or {}).get('cv') is not None or any(f.stmts[x]['k'] in q.CALL_KINDS and 'numeric_limits' in (f.stmts[x].get('callee') or '') for x in f.walk(rhs))
+                  or (f.s(f.strip_casts(rhs)) or {}).get('k') == 'DeclRefExpr' and (f.s(f.strip_casts(rhs)) or {}).get('gl')]
+        data = [a for a, rhs in asg if a not in consts]
+        if not consts or not data:
+            continue
+        n_f += 1
+        bad = None
+        for a in consts:
+            sa = {c for c, b in stage_of(q.pt(f, a))}
+            for d_ in data:
+                sd = {c for c, b in stage_of(q.pt(f, d_))}
+                if sa and sa & sd and f.cfg.exists_path(q.pt(f, a), q.pt(f, d_)):
+                    # is the stage re-enterable: can the function be left after the data write with state_ unchanged?
+                    st_w = q.pts(f, [x for x, r_ in q.assigns(f, 'state_')])
+                    if f.cfg.exists_path(q.pt(f, d_), 'exit', avoid=st_w):
+                        bad = (a, d_)
+        ctx.ob('C12.R10', '%s|%s-survives-reentry' % (f.name, short), bad is None, 'the reset of %s is not in the stage that fills it' % short if bad is None else
+               '%s is reset at %s in the same stage that fills it from the input at %s, and that stage is entered again on the next parse() call when the data ended inside it: '
+               'what an earlier segment established is forgotten — the request parses when it arrives in one piece and fails when a segment boundary falls behind that header' %
+               (short, f.loc(bad[0]['i']), f.loc(bad[1]['i'])), where=f.loc(bad[0]['i']) if bad else f.loc(f.body))
+    if n_f < 1:
+        raise AnalysisBroken('RequestParser::parse: no member with both a constant reset and a data assignment found')
 
 
 def r7(ctx, prog):
@@ -422,7 +492,7 @@ def r12(ctx, prog):
            'the bytes parse() reports as consumed are not removed from the buffer before the parser is consulted again: the same request is parsed and dispatched over and over',
            where=f.loc(ps[0]['i']))
     g = prog.fn1(IMPL + '::commitRespond')
-    sends = [c for c in g.calls() if c.get('fn') == 'send' and c.get('obj') is not None and (g.field_of(c['obj']) or '').endswith('tcp_server_')]
+    sends = send_sites(prog, g)
     incs = [st for st in g.stmts if st and st['k'] == 'UnaryOperator' and st.get('op') == '++' and g.path(st['ch'][0]).endswith('res_index')]
     if not sends or not incs:
         raise AnalysisBroken('commitRespond: sends / res_index increments not found (%d/%d)' % (len(sends), len(incs)))
@@ -432,20 +502,24 @@ def r12(ctx, prog):
         ok = any(g.cfg.dominates(q.pt(g, s_), ip) and g.cfg.exists_path(q.pt(g, s_), ip, avoid=[o for o in others if o]) for s_ in sends)
         ctx.ob('C12.R12', '%s|send-before-advance@%s' % (g.name, g.loc(inc['i']).split(':')[-1]), ok, 'this advance of res_index follows the send of one response' if ok else
                'res_index advances here without a response having been sent for it: the response at that index is skipped and never written', where=g.loc(inc['i']))
-    loops = [st for st in g.stmts if st and st['k'] == 'WhileStmt' and st.get('cond') is not None and any(x['i'] in set(g.walk(st['i'])) for x in incs)]
+    loops = [st for st in g.stmts if st and st['k'] in ('WhileStmt', 'ForStmt') and st.get('cond') is not None and any(x['i'] in set(g.walk(st['i'])) for x in incs)]
     ers = [c for c in g.calls() if c.get('fn') == 'erase' and c.get('obj') is not None and 'res_buff' in g.path(c['obj'])]
     for lp in loops:
         cp = g.cfg.point_of(lp['cond'])
         body_sends = [s_ for s_ in sends if s_['i'] in set(g.walk(lp['i']))]
         body_ers = [e for e in ers if e['i'] in set(g.walk(lp['i']))]
         itv = [g.stmts[x].get('d') for x in g.walk(lp['cond']) if g.stmts[x]['k'] == 'DeclRefExpr' and g.stmts[x].get('dk') == 'Var']
-        reassign = [st for st in g.stmts if st and st['i'] in set(g.walk(lp['i'])) and ((st['k'] == 'BinaryOperator' and st.get('op') == '=') or (st['k'] == 'CXXOperatorCallExpr' and st.get('op') == '=')) and
-                    (g.s(g.strip_casts(st['ch'][0] if st['k'] == 'BinaryOperator' else st.get('obj', -1))) or {}).get('d') in itv and any(c.get('fn') == 'find' for c in q.subtree_calls(g, st['i']))]
-        ok1 = bool(body_sends) and bool(body_ers) and all(not g.cfg.exists_path(q.pt(g, s_), cp, avoid=q.pts(g, body_ers)) for s_ in body_sends)
-        ctx.ob('C12.R12', '%s|sent-then-erased' % g.name, ok1, 'a parked response that was sent is erased before the loop goes round' if ok1 else
-               'a parked response is sent and not erased on the way back to the loop test: it stays parked (and is deleted twice later)', where=g.loc(lp['i']))
-        ok2 = bool(reassign) and all(not g.cfg.exists_path(q.pt(g, e), cp, avoid=[q.pt_or_term(g, r_) for r_ in reassign]) for e in body_ers)
-        ctx.ob('C12.R12', '%s|search-again' % g.name, ok2, 'after the erase the map is searched again before the iterator is tested' if ok2 else
+        reassign = [st for st in g.stmts if st and (st['i'] in set(g.walk(lp['i']))) and ((st['k'] == 'BinaryOperator' and st.get('op') == '=') or (st['k'] == 'CXXOperatorCallExpr' and st.get('op') == '=')) and
+                    (g.s(g.strip_casts(st['ch'][0] if st['k'] == 'BinaryOperator' else st.get('obj', -1))) or {}).get('d') in itv and any(c.get('fn') in ('find', 'erase', 'begin', 'lower_bound') for c in q.subtree_calls(g, st['i']))]
+        ok1 = bool(body_sends) and bool(body_ers) and all(not g.cfg.exists_path(q.pt(g, s_), cp, avoid=q.pts(g, body_ers)) and
+                                                         not g.cfg.exists_path(q.pt(g, s_), 'exit', avoid=q.pts(g, body_ers)) for s_ in body_sends)
+        ctx.ob('C12.R12', '%s|sent-then-erased' % g.name, ok1, 'a parked response that was sent is erased before the loop goes round or the function returns' if ok1 else
+               'a parked response is sent (and released) and a path leaves it in res_buff — back to the loop test or out of the function: the connection\'s teardown deletes it '
+               'a second time', where=g.loc(lp['i']))
+        # an erase whose own result is assigned to the iterator is its re-assignment
+        ok2 = bool(reassign) and all(any(e['i'] in set(g.walk(r_['i'])) for r_ in reassign) or
+                                     not g.cfg.exists_path(q.pt(g, e), cp, avoid=[q.pt_or_term(g, r_) for r_ in reassign]) for e in body_ers)
+        ctx.ob('C12.R12', '%s|search-again' % g.name, ok2, 'after the erase the iterator is given a fresh value (find / the result of erase) before it is tested' if ok2 else
                'after res_buff.erase(iter) the loop tests iter again without a new find(): the erased iterator is compared and dereferenced', where=g.loc(lp['i']))
 
 
